@@ -29,7 +29,7 @@ def systemRequest (kv : KV) : Option String := do
 def newgenRequest (kv : KV) : Option String := do
   let gen ← kv.get? "gen"
   let words ← (match gen with
-    | "xoshiro" => some 8 | "splitmix" | "wyrand" => some 2
+    | "xoshiro" | "libnew" => some 8 | "splitmix" | "wyrand" => some 2
     | "chacha8" | "chacha12" | "chacha20" => some 12 | _ => none)
   match SystemGen.newState natLabels words (parseScript kv) with
   | none => pure "panic"
@@ -37,7 +37,7 @@ def newgenRequest (kv : KV) : Option String := do
     let w (j : Nat) : Nat := ws.getD j 0
     let w64 (j : Nat) : Nat := w (2 * j) + 2 ^ 32 * w (2 * j + 1)
     match gen with
-    | "xoshiro" => pure ("st:" ++ joinWith "," ((List.range 4).map (toString ∘ w64)))
+    | "xoshiro" | "libnew" => pure ("st:" ++ joinWith "," ((List.range 4).map (toString ∘ w64)))
     | "splitmix" | "wyrand" => pure ("st:" ++ toString (w64 0))
     | _ => pure ("st:" ++ joinWith "," ((List.range 12).map (toString ∘ w)) ++ " idx:oob")
 
